@@ -738,6 +738,9 @@ func parseStringLiteral(literal string) (string, error) {
 			var size int
 			value, size = utf8.DecodeRuneInString(str)
 			str = str[size:] // \ + <character>
+			if value == '\u2028' || value == '\u2029' {
+				continue // LineContinuation
+			}
 		} else {
 			str = str[2:] // \<character>
 			switch chr {
@@ -787,8 +790,11 @@ func parseStringLiteral(literal string) (string, error) {
 			case '1', '2', '3', '4', '5', '6', '7':
 				// TODO strict
 				value = rune(chr) - '0'
-				j := 0
-				for ; j < 2; j++ {
+				j, digits := 0, 2
+				if chr >= '4' {
+					digits = 1 // B.1.2: FourToSeven OctalDigit
+				}
+				for ; j < digits; j++ {
 					if len(str) < j+1 {
 						break
 					}
